@@ -305,6 +305,15 @@ mut("c11-retry-read-forever-on-shutdown", ["C11"], "conn.go",
     "\t\tselect {\n\t\tcase <-c.shutdownCtx.Done():\n\t\t\tc.logger.Debug(\"received shutdown cancellation\"", "\t\tselect {\n\t\tcase <-doneUnless(c.shutdownCtx, requestID > 3):\n\t\t\tc.logger.Debug(\"received shutdown cancellation\"",
     more=[("conn.go", "func (c *conn) readRequest(", "func doneUnless(ctx context.Context, b bool) <-chan struct{} {\n\tif b {\n\t\treturn nil\n\t}\n\treturn ctx.Done()\n}\n\nfunc (c *conn) readRequest(")])
 
+mut("c11-stop-does-not-wait-for-accept-loop", ["C11"], "server.go",
+    "\t\t<-s.acceptDone\n", "")
+mut("c11-timeouts-applied-after-watcher-start", ["C11"], "server.go",
+    "\t\t\tif deadlineErr != nil {\n",
+    "\t\t\tif s.readTimeout != 0 {\n\t\t\t\t_ = c.SetReadDeadline(time.Now().Add(s.readTimeout))\n\t\t\t}\n\t\t\tif deadlineErr != nil {\n")
+mut("c03-mux-shared-counter-map", ["C03", "C15"], "mux.go",
+    "func (m *Mux) serve(w *ResponseWriter, req *Request) {\n",
+    "var muxServed = map[routeOperation]int{}\n\nfunc (m *Mux) serve(w *ResponseWriter, req *Request) {\n\tmuxServed[req.routeOp]++\n")
+
 # ---- C15 -------------------------------------------------------------------
 mut("c15-initconn-lock-removed", ["C15"], "conn.go",
     "\tc.mu.Lock()\n\tdefer c.mu.Unlock()\n\tc.netConn = netConn", "\tc.netConn = netConn")
